@@ -55,7 +55,8 @@ theorem step_shape (c : Cfg) (r : Run) (m : Msg) :
     (∃ p, step c r m = stepK c r.st r.outstanding m.kind p ∧ m.isHead = false) ∨
     (step c r m = .buffer m.kind ∧ m.isHead = true) ∨
     (∃ a, step c r m = .abort a) ∨
-    (step c r m = .acceptAbort .unexpected_message ∧ m.kind = .ccs ∧ r.pending.isSome = true) := by
+    (step c r m = .acceptAbort .unexpected_message ∧ m.kind = .ccs ∧ r.pending.isSome = true ∧
+      expectsCCS c r.st = true) := by
   unfold step Msg.isHead
   by_cases he : epochOk c r m = true
   · simp only [he, Bool.not_true, Bool.false_eq_true, if_false]
@@ -83,7 +84,7 @@ theorem step_shape (c : Cfg) (r : Run) (m : Msg) :
       · simp only [h5]
         by_cases h6 : (r.pending.isSome && m.kind == MsgKind.ccs && expectsCCS c r.st) = true
         · simp only [h6, if_true]
-          refine Or.inr (Or.inr (Or.inr ⟨rfl, ?_, ?_⟩)) <;> simp_all
+          refine Or.inr (Or.inr (Or.inr ⟨rfl, ?_, ?_, ?_⟩)) <;> simp_all
         · simp only [h6]; exact Or.inl ⟨false, by simp⟩
   · simp only [he]
     exact Or.inr (Or.inr (Or.inl ⟨.wrong_epoch, by simp⟩))
@@ -157,7 +158,7 @@ theorem hsRun_K (c : Cfg) : ∀ (ms : List Msg) (r r' : Run),
         rw [hst'] at this
         exact this
       rw [kinds_cons]
-      rcases step_shape c r m with ⟨p, hs, hnh⟩ | ⟨hs, hh⟩ | ⟨a, hs⟩ | ⟨hs, _, _⟩
+      rcases step_shape c r m with ⟨p, hs, hnh⟩ | ⟨hs, hh⟩ | ⟨a, hs⟩ | ⟨hs, _, _, _⟩
       · -- a complete message went through `_getMsg`
         simp only [hnh, Bool.false_eq_true, if_false]
         unfold hsRunK
